@@ -36,3 +36,9 @@ func (s *Server) VerifUploadCount(repo string) (int, error) {
 
 // VerifRepoNames lists the repositories the store currently has open.
 func (s *Server) VerifRepoNames() []string { return store.VerifRepoNames(s.store) }
+
+// VerifIndexJSON returns the top-level index of a repository as it would be written to index.json.
+func (s *Server) VerifIndexJSON(repo string) ([]byte, error) { return store.VerifIndexJSON(s.store, repo) }
+
+// VerifBlobList lists the digests of all blobs of a repository.
+func (s *Server) VerifBlobList(repo string) ([]string, error) { return store.VerifBlobList(s.store, repo) }
